@@ -201,7 +201,7 @@ func c05(p *core.Program, r *core.Report) {
 					gIdx = i
 				}
 			}
-			keyword := func(dyn types.Type, layout int64) (string, bool) {
+			keywordOf := func(wfn *ssa.Function, gIdx int, dyn types.Type, layout int64) (string, bool) {
 				ev := &eng.ConstEval{Inline: pureTableHelper}
 				ev.Override = func(fn *ssa.Function, v ssa.Value, args []eng.CVal) (eng.CVal, bool) {
 					if c, ok := v.(*ssa.Call); ok {
@@ -244,6 +244,48 @@ func c05(p *core.Program, r *core.Report) {
 					}
 				})
 				return kwText, found
+			}
+			keyword := func(dyn types.Type, layout int64) (string, bool) { return keywordOf(wfn, gIdx, dyn, layout) }
+			// every other function of the package that is handed a geometry and writes its keyword (a worker that
+			// write delegates to, which is also what collection members are written with) must write the same
+			// keyword with its other parameters unknown: a suffix that depends on what the caller announces is not
+			// the geometry's own
+			if gIdx >= 0 {
+				for _, f := range pkgFuncs(p, wktRel) {
+					if f == wfn || f.Parent() != nil {
+						continue
+					}
+					fi := -1
+					for i, prm := range f.Params {
+						if n, ok := prm.Type().(*types.Named); ok && n.Obj().Name() == "T" && n.Obj().Pkg() != nil && n.Obj().Pkg().Path() == mod {
+							fi = i
+						}
+					}
+					if fi < 0 {
+						continue
+					}
+					bad, rows := "", 0
+					for gt := range wktTypeTokens {
+						dyn := geomPtrType(p, strings.TrimPrefix(gt, "*geom."))
+						if dyn == nil {
+							continue
+						}
+						for _, lay := range []string{"XY", "XYZ", "XYM", "XYZM"} {
+							want, ok1 := keyword(dyn, lvalOf[lay])
+							got, ok2 := keywordOf(f, fi, dyn, lvalOf[lay])
+							if !ok2 {
+								continue // writes no keyword for this geometry
+							}
+							rows++
+							if ok1 && got != want && bad == "" {
+								bad = fmt.Sprintf("%s writes %q for %s %s where write writes %q", short(f), got, gt, lay, want)
+							}
+						}
+					}
+					if rows > 0 {
+						r.Check(bad == "", r1, "encoder/"+short(f)+"/same-keyword-as-write", p.Pos(f.Pos()), true, fmt.Sprintf("%d rows agree with write", rows), bad+": the keyword or its dimension suffix depends on something other than the geometry's own type and layout")
+					}
+				}
 			}
 			if gIdx >= 0 {
 				for gt := range wktTypeTokens {
